@@ -1,8 +1,66 @@
 // Family binary "hashring": C18 C19 C20 C21 C27.
+//
+// Every Exec of this family runs in a child process ("worker" mode of the same binary) with a
+// deadline per op, because ring construction is hang-prone (F19: the replica loop of
+// calculateSectionReplicas spins forever on zone layouts that cannot be balanced).  A missed
+// deadline kills the worker, answers "hang" and is reported as oracle violation class "hang".
 package main
 
-import "github.com/thanos-io/thanos/verifharness/hlib"
+import (
+	"fmt"
+	"os"
+	"strconv"
+	"strings"
+
+	"github.com/thanos-io/thanos/pkg/store/labelpb"
+
+	"github.com/thanos-io/thanos/verifharness/hlib"
+)
 
 var props []*hlib.Prop
 
-func main() { hlib.Main(props) }
+func main() {
+	if len(os.Args) >= 2 && os.Args[1] == "worker" {
+		workerMain()
+		return
+	}
+	if len(os.Args) >= 2 && os.Args[1] == "mk" {
+		mkMain(os.Args[2:])
+		return
+	}
+	hlib.Main(props)
+	stopWorker()
+}
+
+// mk ket <mode> <rf> <nq> <spn> <addr>@<az>,... [tenant/name=value/...]...   prints a ket op line
+// (helper for writing corpus files by hand; hashes are computed as the generators do)
+func mkMain(a []string) {
+	if len(a) < 6 || a[0] != "ket" {
+		fmt.Fprintln(os.Stderr, "usage: mk ket <mode> <rf> <nq> <spn> <addr>@<az>,... [tenant/name=value/...]...")
+		os.Exit(2)
+	}
+	rf, _ := strconv.Atoi(a[2])
+	nq, _ := strconv.Atoi(a[3])
+	spn, _ := strconv.Atoi(a[4])
+	var eps []epSpec
+	for _, t := range strings.Split(a[5], ",") {
+		p := strings.SplitN(t, "@", 2)
+		az := ""
+		if len(p) == 2 {
+			az = p[1]
+		}
+		eps = append(eps, epSpec{addr: p[0], az: az, hashes: sectionHashes(p[0], spn)})
+	}
+	var series []seriesSpec
+	for _, t := range a[6:] {
+		p := strings.Split(t, "/")
+		s := seriesSpec{tenant: p[0]}
+		for _, l := range p[1:] {
+			nv := strings.SplitN(l, "=", 2)
+			s.labels = append(s.labels, labelpb.ZLabel{Name: nv[0], Value: nv[1]})
+		}
+		s.v = labelpbHash(s)
+		series = append(series, s)
+	}
+	fmt.Println(ketLine(a[1], rf, nq, eps, series))
+}
